@@ -6,6 +6,7 @@ import json
 import os
 import random
 import re
+import random
 import shutil
 import subprocess
 import sys
@@ -217,7 +218,7 @@ def parse_assumptions(out):
             cur = []
             blocks.append(cur)
         elif cur is not None:
-            m = re.match(r'^([A-Za-z_][\w\.\']*)\s*:', line)
+            m = re.match(r'^([A-Za-z_][\w\.\']*)\s*(:|$)', line)
             if m:
                 cur.append(m.group(1))
             elif line and not line.startswith(' '):
@@ -225,7 +226,7 @@ def parse_assumptions(out):
     return blocks
 
 
-def prove(ctx, deps=(), props=None, timeout=1500):
+def prove(ctx, extra=(), props=None, timeout=1500):
     """Build props/<pid>.v and its dependencies; record obligations and their assumptions.
     Returns (ok, failure_text)."""
     props = props or 'props/%s.v' % ctx.pid
@@ -238,7 +239,7 @@ def prove(ctx, deps=(), props=None, timeout=1500):
     printed = re.findall(r'Print Assumptions\s+([\w\'\.]+)\s*\.', src)
     ctx.obligations += len(thms)
     # dependencies through make (props file itself is always recompiled to capture its output)
-    rc, out, dt = coq_make([props[:-2] + '.vo'], timeout=timeout)
+    rc, out, dt = coq_make([props[:-2] + '.vo'] + list(extra), timeout=timeout)
     ctx.checker_cmds.append('cd coq && coq_makefile -f _CoqProject -o Makefile && make -j%d %s.vo' % (NCPU, props[:-2]))
     if rc != 0:
         tail = '\n'.join(out.strip().split('\n')[-25:])
